@@ -14,7 +14,7 @@ func TestVerifC02(t *testing.T) {
 	r := ev.Start(t, "C02")
 	defer r.Finish()
 	o := vwOpts{
-		prop: "C02", cmds: ev.Pick(r, 2, 3), maxInstalls: ev.Pick(r, 2, 3), maxCrashes: ev.Pick(r, 1, 2), maxOutages: ev.Pick(r, 1, 2), retained: 2,
+		prop: "C02", cmds: ev.Pick(r, 2, 3), maxInstalls: ev.Pick(r, 2, 3), maxCrashes: 1, maxOutages: 1, retained: 2,
 		evSame: true, evTrailing: true, evRepair: true, evCrashReplace: true, evHedge: true, evLocalLost: true, evOrder: r.Thorough(),
 		oC02: true, reportKF: false,
 	}
